@@ -81,7 +81,8 @@ impl<'a> Gen<'a> {
   fn leaf_family(&mut self, scored: bool) -> Option<usize> {
     if scored {
       if self.free.is_empty() {
-        return None;
+        // all families used: repeat one (the same term key then feeds two scoring clauses)
+        return Some(self.rng.below(FAMILIES.len()));
       }
       let k = self.rng.below(self.free.len());
       Some(self.free.swap_remove(k))
@@ -192,9 +193,9 @@ impl<'a> Gen<'a> {
         }
         None => ("match_all", json!({"type":"match_all"})),
       },
-      22..=27 if !self.kw_fields.is_empty() && (!scored || !self.free_tags.is_empty()) => {
+      22..=29 if !self.kw_fields.is_empty() => {
         let f = self.rng.pick(&self.kw_fields).clone();
-        let v = if scored {
+        let v = if scored && !self.free_tags.is_empty() {
           let k = self.rng.below(self.free_tags.len());
           let t = TAGS[self.free_tags.swap_remove(k)];
           match self.rng.below(3) {
@@ -207,14 +208,14 @@ impl<'a> Gen<'a> {
         };
         ("term_keyword", json!({"type":"term","field": f, "value": v}))
       }
-      28..=29 if self.has_year => {
+      30..=31 if self.has_year => {
         let mut q = json!({"type":"rank_feature","field":"year"});
         if self.rng.chance(1, 2) {
           q["modifier"] = json!(*self.rng.pick(&["log", "log1p", "sqrt", "reciprocal", "none"]));
         }
         ("rank_feature", q)
       }
-      28..=35 => ("match_all", json!({"type":"match_all"})),
+      30..=35 => ("match_all", json!({"type":"match_all"})),
       36..=47 => {
         let n = 1 + self.rng.below(3);
         let ws: Vec<String> = (0..n).map(|_| self.word()).collect();
@@ -366,6 +367,46 @@ impl<'a> Gen<'a> {
   }
 }
 
+/// `boost` on random clauses (0 = "matches but does not contribute to the score") and on
+/// `fields` entries of query_string / multi_match
+fn sprinkle_boosts(rng: &mut Rng, q: &mut Value) {
+  let Some(m) = q.as_object_mut() else { return };
+  if m.contains_key("type") && rng.chance(1, 4) {
+    let b = rng.pick(&[json!(0), json!(0), json!(0.0), json!(0.5), json!(2), json!(3.5)]).clone();
+    m.insert("boost".into(), b.clone());
+  }
+  let ty = m.get("type").and_then(|t| t.as_str()).unwrap_or("").to_string();
+  if ty == "query_string" || ty == "multi_match" {
+    if let Some(fs) = m.get_mut("fields").and_then(|f| f.as_array_mut()) {
+      if rng.chance(1, 3) {
+        let specs: Vec<Value> = fs
+          .iter()
+          .map(|f| {
+            let mut o = json!({"field": f});
+            if rng.chance(1, 2) {
+              o["boost"] = rng.pick(&[json!(0), json!(0.0), json!(2)]).clone();
+            }
+            o
+          })
+          .collect();
+        *fs = specs;
+      }
+    }
+  }
+  for k in ["must", "should", "must_not", "queries"] {
+    if let Some(a) = m.get_mut(k).and_then(|a| a.as_array_mut()) {
+      for c in a.iter_mut() {
+        sprinkle_boosts(rng, c);
+      }
+    }
+  }
+  if ty == "function_score" || ty == "script_score" {
+    if let Some(c) = m.get_mut("query") {
+      sprinkle_boosts(rng, c);
+    }
+  }
+}
+
 fn gen_schema(rng: &mut Rng) -> (Value, Vec<String>, Vec<String>, bool) {
   let names = ["body", "title", "notes"];
   let ntext = 1 + rng.below(3);
@@ -411,6 +452,11 @@ fn gen_schema(rng: &mut Rng) -> (Value, Vec<String>, Vec<String>, bool) {
   if rng.chance(3, 4) {
     kw.push(json!({"name": "tag", "stored": true, "indexed": true, "fast": true}));
     kwnames.push("tag".to_string());
+    // a second keyword field over the same value pool: documents carry equal values in both
+    if rng.chance(2, 3) {
+      kw.push(json!({"name": "origin", "stored": true, "indexed": true, "fast": true}));
+      kwnames.push("origin".to_string());
+    }
   }
   let has_year = rng.chance(2, 3);
   let numeric = if has_year { vec![json!({"name": "year", "i64": true, "fast": true, "stored": true})] } else { vec![] };
@@ -453,15 +499,35 @@ fn gen_doc(rng: &mut Rng, id: usize, tnames: &[String], kwnames: &[String], has_
       d.insert(f.clone(), json!(mk(rng)));
     }
   }
+  let mut prev_kw: Option<Value> = None;
   for f in kwnames {
     if rng.chance(1, 6) {
       continue;
     }
-    if rng.chance(1, 5) {
-      d.insert(f.clone(), json!([*rng.pick(&TAGS), *rng.pick(&TAGS)]));
-    } else {
-      d.insert(f.clone(), json!(*rng.pick(&TAGS)));
-    }
+    let var = |rng: &mut Rng, t: &str| -> String {
+      match rng.below(4) {
+        0 => t.to_uppercase(),
+        1 => t.to_lowercase(),
+        _ => t.to_string(),
+      }
+    };
+    let v = match (&prev_kw, rng.below(5)) {
+      // the same value(s) as the previous keyword field of this document
+      (Some(p), 0 | 1) => p.clone(),
+      // multi-valued, with repeated values (also repeated up to case)
+      (_, 2) => {
+        let a = *rng.pick(&TAGS);
+        let b = if rng.chance(1, 2) { a } else { *rng.pick(&TAGS) };
+        let mut vals = vec![var(rng, a), var(rng, b)];
+        if rng.chance(1, 3) {
+          vals.push(var(rng, a));
+        }
+        json!(vals)
+      }
+      _ => json!(*rng.pick(&TAGS)),
+    };
+    prev_kw = Some(v.clone());
+    d.insert(f.clone(), v);
   }
   if has_year && rng.chance(5, 6) {
     d.insert("year".into(), json!(2018 + rng.below(8)));
@@ -859,6 +925,42 @@ fn run_request(
       json!({"ids": mech}),
     );
   }
+  // ---- the documents returned must not depend on the execution strategy: the same request
+  // with the default strategy (wand) and with bmw (limit above the corpus size, so no top-k
+  // truncation is involved) against the exhaustive bm25 run
+  for strat in ["default", "bmw"] {
+    let mut r2 = req.clone();
+    if strat == "default" {
+      r2.as_object_mut().map(|o| o.remove("execution"));
+    } else {
+      r2["execution"] = json!(strat);
+    }
+    let cr = json!({"case": case, "request": request, "execution": strat});
+    match idx::search(&reader, &r2) {
+      Outcome::Ok(v) => {
+        let got: BTreeSet<String> = idx::hit_ids(&v).into_iter().collect();
+        for id in imp.difference(&got) {
+          s.fail(
+            &format!("strategy.{strat}.missing-doc"),
+            "a document returned by the exhaustive bm25 execution is not returned by this execution strategy although the limit covers all matches",
+            &cr,
+            json!({"missing": id, "bm25": imp, "this": got}),
+          );
+        }
+        for id in got.difference(&imp) {
+          s.fail(
+            &format!("strategy.{strat}.extra-doc"),
+            "this execution strategy returns a document that the exhaustive bm25 execution does not",
+            &cr,
+            json!({"extra": id, "bm25": imp, "this": got}),
+          );
+        }
+      }
+      Outcome::Err(e) => s.fail(&format!("strategy.{strat}.error"), "the request is accepted with execution bm25 but rejected with this strategy", &cr, json!(e)),
+      Outcome::Panic(p) => s.fail(&format!("strategy.{strat}.panic"), "search panicked with this execution strategy", &cr, json!(p)),
+    }
+    s.count(&format!("{tag}.strategy.{strat}"));
+  }
   // the spec evaluated on the manifest's tombstones must describe the history's live documents
   let live_ids: BTreeSet<String> = live.keys().cloned().collect();
   let layout_live: BTreeSet<String> = b
@@ -945,7 +1047,7 @@ impl Prop for C07 {
     "C07"
   }
   fn rule(&self) -> &'static str {
-    "case = random schema (1-3 text fields: default or custom analyzer from tokenizer default/whitespace/unicode + lowercase/stopwords/synonyms/stemmer; optional keyword and i64 fields), 5-40 documents over a 12-word vocabulary (multi-valued fields, mixed case) in 1-4 commits with deletions and upserts, one query tree to depth 4 (term, match_all, phrase+slop, prefix, wildcard, regex, query_string, multi_match, dis_max, bool, constant_score, rank_feature, function_score [boost_mode replace, weight functions, min_score/max_boost], script_score [`_score` or `_score + 1 / (year - k)`]; optional root filter, `fields`, `fuzzy`), execution bm25, limit 1000; plus up to 3 indexed-word probes (term query for a word of a live document) and one query-string parser comparison; a case is non-trivial when the documented semantics selects at least one live document and rejects at least one"
+    "case = random schema (1-3 text fields: default or custom analyzer from tokenizer default/whitespace/unicode + lowercase/stopwords/synonyms/stemmer; optional keyword and i64 fields), 5-40 documents over a 12-word vocabulary (multi-valued fields, mixed case) in 1-4 commits with deletions and upserts, one query tree to depth 4 (term, match_all, phrase+slop, prefix, wildcard, regex, query_string, multi_match, dis_max, bool, constant_score, rank_feature, function_score [boost_mode replace, weight functions, min_score/max_boost], script_score [`_score` or `_score + 1 / (year - k)`]; optional root filter, `fields`, `fuzzy`), every request is executed with bm25 (compared with the model and the documented semantics) and again with the default strategy (wand) and bmw (optional bmw_block_size 1-4), whose hit-id sets must equal the bm25 run; limit 1000; clauses and field specs carry random boosts including 0; keyword fields `tag`/`origin` share one value pool (equal values across fields, repeated values inside a field); plus up to 3 indexed-word probes (term query for a word of a live document), one keyword-value probe per keyword field and one query-string parser comparison; a case is non-trivial when the documented semantics selects at least one live document and rejects at least one"
   }
   fn count(&self, tier: Tier) -> usize {
     tier.pick(400, 20000)
@@ -986,7 +1088,13 @@ impl Prop for C07 {
     let mut g = Gen { rng, text_fields: tnames.clone(), kw_fields: kwnames.clone(), has_year, free: (0..FAMILIES.len()).collect(), free_tags: (0..TAGS.len()).collect(), kinds: BTreeSet::new() };
     let depth = g.rng.below(5);
     let query = if g.rng.chance(1, 12) { json!(g.query_text(true, true)) } else { g.node(depth, true) };
+    let mut query = query;
+    sprinkle_boosts(g.rng, &mut query);
     let mut request = json!({"query": query});
+    // block size for the bmw run of this request
+    if g.rng.chance(1, 2) {
+      request["bmw_block_size"] = json!(1 + g.rng.below(4));
+    }
     if g.rng.chance(1, 5) && (!kwnames.is_empty() || has_year) {
       request["filter"] = g.filter(2);
     }
@@ -1104,6 +1212,28 @@ impl Prop for C07 {
           }
         }
         break;
+      }
+    }
+    // ---- the same for keyword values: a term query for (keyword field, value of a live
+    // document) returns it — one probe per keyword field of one document carrying a value in
+    // every keyword field (so equal values in different fields are looked up under each field),
+    // alternately with and without `boost: 0`
+    let kwf: Vec<String> = b.kinds.iter().filter(|k| k[1] == json!("keyword")).filter_map(|k| k[0].as_str().map(|x| x.to_string())).collect();
+    if let Some((id, d)) = live.iter().find(|(_, d)| !kwf.is_empty() && kwf.iter().all(|f| !strings_of(&d[f]).is_empty())) {
+      for (k, f) in kwf.iter().enumerate() {
+        let vals = strings_of(&d[f]);
+        let v = vals.last().cloned().unwrap_or_default();
+        s.count("probe.keyword");
+        let mut q = json!({"type":"term","field": f, "value": v});
+        if k % 2 == 1 {
+          q["boost"] = json!(0);
+        }
+        let preq = json!({"query": q});
+        if let Some((imp, _)) = run_request(drv, &b, case, &preq, &live, s, "probe") {
+          if !imp.contains(id) {
+            s.fail("indexed-keyword.not-found", "a term query for a keyword value of a live document does not return it", &json!({"case": case, "request": preq}), json!({"doc": id, "field": f, "returned": imp}));
+          }
+        }
       }
     }
   }
